@@ -2,6 +2,11 @@
 dependency closure of the property."""
 
 PROPS = {
+    "C05": dict(
+        modules=["contracts.number", "contracts.strings", "contracts.reader"],
+        title="EoReader chunked-reading model",
+        trusted=["cp1252 decode table D (external codec; pointwise, total, stateless)"],
+    ),
     "C07": dict(
         modules=["contracts.number", "lemmas.c07"],
         title="EO number codec bijection",
